@@ -955,9 +955,27 @@ class RTDCWriter:
                 **self.compression_kwargs)
             line_offset = 0
         else:
-            # TODO: test whether fixed length is long enough!
-            # Resize the dataset
             txt_dset = group[name]
+            if (txt_dset.dtype.kind == "S"
+                    and txt_dset.dtype.itemsize < max_length):
+                # The fixed length of the existing dataset is too short
+                # for the new lines. Recreate it with a longer length.
+                old_lines = list(txt_dset[:])
+                old_attrs = dict(txt_dset.attrs)
+                del group[name]
+                txt_dset = group.create_dataset(
+                    name,
+                    shape=(len(old_lines),),
+                    dtype=f"S{max_length}",
+                    maxshape=(None,),
+                    chunks=True,
+                    fletcher32=True,
+                    **self.compression_kwargs)
+                for ii, lbytes in enumerate(old_lines):
+                    txt_dset[ii] = lbytes
+                for key in old_attrs:
+                    txt_dset.attrs[key] = old_attrs[key]
+            # Resize the dataset
             line_offset = txt_dset.shape[0]
             txt_dset.resize(line_offset + lnum, axis=0)
 
